@@ -5,6 +5,7 @@ from .. import gen, install, loops
 from ..common import pick, shard_count
 
 META = {
+    'refill': True,      # cases presented in a reused buffer are followed by a refill of that buffer (runner)
     'rule': ('cases = curve (12 families, n 4..80, thorough to 3000) x detector in {curvature, dfdt, menger, lmethod, '
              'kneedle} x t1 = 10^U(-4,-1) x t2 = detector minimum + {0,1,2}; the monitor on multi_knee.multi_knee recomputes '
              'the documented recursion with the very detector callable it was handed and the library\'s own SMAPE '
